@@ -196,29 +196,53 @@ def run(F, R):
     if R.floor("C17-R5", "handle_set_responses", len(hs_), 1):
         hv = BV.of(hs_[0])
         ws = [(bi, p, r) for (bi, si_, p, r) in hv.field_writes if bi in hv.reach0 and [e.get("n") for e in p.get("p", []) if e["k"] == "field"][-1:] == ["responses_by_appid"]]
+        wv_, wcall_ = hv, None
+        if not ws:
+            # the locked swap may have been moved into a private async helper that is handed the parsed map
+            for (cbi_, ct_, cv_) in lib.async_callees(W, hv):
+                w2 = [(bi, p, r) for (bi, si_, p, r) in cv_.field_writes if bi in cv_.reach0 and [e.get("n") for e in p.get("p", []) if e["k"] == "field"][-1:] == ["responses_by_appid"]]
+                if w2:
+                    ws, wv_, wcall_ = w2, cv_, (cbi_, ct_)
+                    break
         ok = len(ws) == 1
         det = ""
         if ok:
-            base = terms.render(hv, hv.trace_place({"l": ws[0][1]["l"]}), W, {}, transparent=T)
-            val = terms.render(hv, hv._trace_rv(ws[0][2], None, 0), W, {}, transparent=T)
+            base = terms.render(wv_, wv_.trace_place({"l": ws[0][1]["l"]}), W, {}, transparent=T)
+            vt0_ = wv_._trace_rv(ws[0][2], None, 0)
+            if wcall_ is not None:
+                up_ = lib.async_param_to_arg(W, hv, wcall_[1], wv_, vt0_)
+                val = terms.render(hv, up_, W, {}, transparent=T) if up_ is not None else "?" + terms.render(wv_, vt0_, W, {}, transparent=T)
+            else:
+                val = terms.render(hv, vt0_, W, {}, transparent=T)
             det = "%s.responses_by_appid = %s" % (base[:80], val[:80])
             ok = re.search(r"(?<![A-Za-z_])lock\(", base) is not None and "try_lock" not in base and val.startswith("expect(from_slice(")
         R.check("C17-R5", "whole-map-under-lock", ok, det, "set_responses: %s" % det)
         if ws:
             parsed = [bi for bi, t in hv.calls() if lib.callee_is(t, "serde_json::from_slice")]
-            skip = set(hv.exits()) & hv.reach_from(parsed, avoid=[w[0] for w in ws])
+            skip = set(hv.exits()) & hv.reach_from(parsed, avoid=[w[0] for w in ws] if wcall_ is None else [wcall_[0]])
+            if wcall_ is not None:
+                # .. and inside the helper every path to its end passes the assignment
+                skip |= set(wv_.exits()) & wv_.reach_from([0], avoid=[w[0] for w in ws])
             R.check("C17-R5", "reconfiguration-always-applied", bool(parsed) and not skip, "once the new map is parsed, every path of handle_set_responses to its answer passes the assignment of the new map",
                     "handle_set_responses can answer without having replaced the response map (e.g. when the lock is busy): the reconfiguration is silently dropped")
     if co:
         cv = BV.of(co[0])
         first = None
-        for bi in sorted(cv.reach0):
-            t = cv.blocks[bi]["t"]
-            if t["k"] == "call" and not is_logging_span(t["sp"]) and lib.norm(t.get("callee") or "").split("::")[-1] in ("lock", "method", "is_empty", "to_bytes", "get", "uri"):
-                first = lib.norm(t.get("callee"))
-                break
+        helpers_ = {bi_: cv2_ for (bi_, t2_, cv2_) in lib.async_callees(W, cv)}
+
+        def _first_relevant(v_):
+            for bi in sorted(v_.reach0):
+                t = v_.blocks[bi]["t"]
+                if t["k"] == "call" and not is_logging_span(t["sp"]) and lib.norm(t.get("callee") or "").split("::")[-1] in ("lock", "method", "is_empty", "to_bytes", "get", "uri"):
+                    return lib.norm(t.get("callee"))
+                if v_ is cv and bi in helpers_:
+                    f2 = _first_relevant(helpers_[bi])     # a private async helper: what it does first
+                    if f2 is not None:
+                        return f2
+            return None
+        first = _first_relevant(cv)
         R.check("C17-R5", "snapshot-first", first is not None and first.endswith("Mutex::<T>::lock"), str(first), "the first action of a request is %s, not taking the lock" % first)
-        cl_ = [t for _, t in cv.calls() if lib.callee_is(t, "std::clone::Clone::clone") and "OmahaServer" in (t.get("resolved") or "")]
+        cl_ = [t for v_ in [cv] + list(helpers_.values()) for _, t in v_.calls() if lib.callee_is(t, "std::clone::Clone::clone") and "OmahaServer" in (t.get("resolved") or "")]
         R.check("C17-R5", "snapshot-clone", len(cl_) == 1, "the server state is cloned once per request", "server state cloned %d times" % len(cl_))
 
     # ---------------------------------------------------------------- R6 handler panic census
